@@ -93,6 +93,7 @@ type gspec struct {
 	EntrySpell int
 	IDs        []string // optional "id" per node ("" none)
 	NoDecoys   bool
+	EntryOnly  int         // > 0: of the entry references to N0 (numbered as they are written) only this one is broken by Breaks[-1]
 	SameText   bool        // chains: every hop is written with the same text (same member name, same relative path)
 	Site       int         // 0: the universe as written (root in file:///r/s/); 1: re-homed, file:///r/ -> http://h/r/ and http://h/ -> http://other/
 	LocalRefs  bool        // the root also holds a parameter / response that is a $ref to a parameter / response of the root
@@ -504,8 +505,14 @@ func (g *gspec) build() *built {
 	}
 	// entry elements
 	rootURL := docURLs[0]
+	entryPos := 0
 	n0 := func(from string) map[string]interface{} {
-		return obj("$ref", breakRef(g.refTo(from, 0, g.EntrySpell), g.Breaks[-1]))
+		entryPos++
+		mode := g.Breaks[-1]
+		if g.EntryOnly > 0 && entryPos != g.EntryOnly {
+			mode = brkNone
+		}
+		return obj("$ref", breakRef(g.refTo(from, 0, g.EntrySpell), mode))
 	}
 	member := func(d map[string]interface{}, k string) map[string]interface{} {
 		m, ok := d[k].(map[string]interface{})
@@ -696,6 +703,7 @@ func (g *gspec) features() map[string]string {
 	f["chain"] = strings.Join(ch, ">")
 	f["chainlen"] = strconv.Itoa(len(g.Chain))
 	f["sametext"] = strconv.FormatBool(g.SameText)
+	f["entryonly"] = strconv.Itoa(g.EntryOnly)
 	f["entryspell"] = spellNames[g.EntrySpell]
 	f["site"] = []string{"file", "http"}[g.Site]
 	ids := []string{}
